@@ -274,7 +274,7 @@ fn stream(ctx: &mut Ctx) {
     let name = format!("{}/stream", d.flavor.name());
     ctx.subject(&name);
     let b = ctx.cfg.bs;
-    let (iv, _) = wl::ctr_iv(&mut ctx.rng, d.flavor, b);
+    let (iv, _) = stream_iv(ctx, d.flavor, b);
     let (len, rc) = wl::nbytes(&mut ctx.rng, b, ctx.cfg.par, ctx.tier);
     let (msg, _) = wl::data(&mut ctx.rng, len);
     let (s1, c1) = wl::byte_schedule(&mut ctx.rng, len, b);
@@ -362,7 +362,7 @@ fn core(ctx: &mut Ctx) {
     ctx.subject(&name);
     let b = ctx.cfg.bs;
     let w = ctx.cfg.par;
-    let (iv, _) = wl::ctr_iv(&mut ctx.rng, d.flavor, b);
+    let (iv, _) = stream_iv(ctx, d.flavor, b);
     let (n, _) = wl::nblocks(&mut ctx.rng, w, b, ctx.tier);
     let (msg, _) = wl::data(&mut ctx.rng, n * b);
     let (s1, c1) = wl::schedule(&mut ctx.rng, n, w);
